@@ -917,6 +917,96 @@ static void run_sig(void)
 }
 #endif
 
+/* ---- C17: the read side of a registered thread is wait-free -------------------------------------------------------------- */
+static void *upd_victim(void *a)
+{
+	(void)a;
+	ST(x, 1);
+	do_sync();
+	ST(y, 1);
+	if (vrt_param("two_gp", 0)) {
+		do_sync();
+		ST(z, 1);
+	}
+	return NULL;
+}
+
+static void run_solo_reader(void)
+{
+	pthread_t u, r;
+	int with_reader = (int)vrt_param("reader", 0), i, a, b;
+	unsigned long bound = (unsigned long)vrt_param("bound", 12);
+
+	rcu_register_thread();
+#ifdef FLAVOR_BP
+	rcu_read_lock();	/* registered */
+	rcu_read_unlock();
+#endif
+	if (with_reader)
+		pthread_create(&r, NULL, rd_basic, (void *)2L);
+	pthread_create(&u, NULL, upd_victim, NULL);
+#ifdef FLAVOR_QSBR
+	if (!vrt_param("hold", 0)) {
+		rcu_thread_offline();	/* do not hold the victims back while they run up to their suspension point */
+		vrt_yield();
+		vrt_solo_begin("rcu_thread_online (qsbr)", bound);
+		rcu_thread_online();
+		vrt_solo_end();
+	} else
+		vrt_yield();		/* online: the updater ends up waiting for us (spinning, then asleep on its futex) */
+#else
+	if (vrt_param("hold", 0))
+		rcu_read_lock();	/* the updater ends up waiting for us (spinning, then asleep on its futex) */
+	vrt_yield();		/* the updater (and reader) run; a preemption freezes them anywhere */
+	if (vrt_param("hold", 0)) {
+		vrt_yield();
+		vrt_solo_begin("nested rcu_read_lock/unlock + outermost rcu_read_unlock (wakes the updater)", 2 * bound);
+		rcu_read_lock();
+		rcu_read_unlock();
+		rcu_read_unlock();
+		vrt_solo_end();
+	}
+#endif
+	for (i = 0; i < 2; i++) {
+		int s;
+
+#ifdef FLAVOR_QSBR
+		s = sec_begin();
+		a = LD(x);
+		b = LD(y);
+		sec_end(s);
+		vrt_solo_begin("rcu_quiescent_state (qsbr)", bound);
+		rcu_quiescent_state();
+		vrt_solo_end();
+#else
+		vrt_solo_begin("rcu_read_lock", bound);
+		rcu_read_lock();
+		vrt_solo_end();
+		s = sec_begin();
+		a = LD(x);
+		b = LD(y);
+		sec_end(s);
+		vrt_solo_begin("rcu_read_unlock", bound);
+		rcu_read_unlock();
+		vrt_solo_end();
+#endif
+		VRT_CHECK(!(a == 0 && b == 1), "solo_reader: x=0 then y=1");
+	}
+#ifdef FLAVOR_QSBR
+	vrt_solo_begin("rcu_thread_offline (qsbr)", bound);
+	rcu_thread_offline();
+	vrt_solo_end();
+#endif
+	pthread_join(u, NULL);
+	if (with_reader)
+		pthread_join(r, NULL);
+#ifdef FLAVOR_QSBR
+	rcu_thread_online();
+#endif
+	rcu_unregister_thread();
+	check_intervals("solo_reader");
+}
+
 struct vrt_scenario vrt_scenarios[] = {
 	{ "basic", run_basic, "reader || updater" },
 #ifndef FLAVOR_QSBR
@@ -932,6 +1022,7 @@ struct vrt_scenario vrt_scenarios[] = {
 	{ "qsbr", run_qsbr, "qsbr online/quiescent/offline" },
 #endif
 	{ "rereg", run_rereg, "reader registers/unregisters/re-registers around grace periods" },
+	{ "solo_reader", run_solo_reader, "C17: read-side primitives of a registered thread with the updater frozen at every step" },
 	{ "leave_block", run_leave_block, "a thread that left (unregistered/offline/exited) is not waited for" },
 	{ "churn", run_churn, "n readers come and go around a grace period (bp: registry growth)" },
 	{ "slot_hole", run_slot_hole, "a reader exits while a later one is alive in a section; a new one registers" },
